@@ -39,6 +39,7 @@ class Unit:
         self.title = title
         self.repo = repo
         self.props = list(props)
+        self.prop_alias = {}    # a clause labelled with the key also counts for the listed properties (e.g. {'C02': ['C16']})
         self.safety_props = list(safety_props if safety_props is not None else props)
         self.chunks = []
         self.assumptions = []   # (kind, name-regex or None, text) — the declared ledger
